@@ -441,10 +441,11 @@ func (m *Mux) serveHTTP(w http.ResponseWriter, r *http.Request) error {
 		defer conn.Close()
 
 		stream := &streamWS{
-			ctx:    ctx,
-			conn:   conn,
-			method: method,
-			params: params,
+			ctx:     ctx,
+			conn:    conn,
+			method:  method,
+			params:  params,
+			maxRecv: m.opts.maxReceiveMessageSize,
 		}
 		herr := hd.handler(&m.opts, stream)
 
